@@ -838,6 +838,7 @@ coap_oscore_decrypt_pdu(coap_session_t *session,
   size_t tag_len;
   oscore_recipient_ctx_t *rcp_ctx = NULL;
   oscore_association_t *association = NULL;
+  oscore_association_t *refresh_association = NULL;
   uint8_t external_aad_buffer[100];
   coap_bin_const_t external_aad;
   oscore_sender_ctx_t *snd_ctx = NULL;
@@ -1194,22 +1195,11 @@ coap_oscore_decrypt_pdu(coap_session_t *session,
      */
     association = oscore_find_association(session, &pdu_token);
     if (association) {
-      /* Refresh the association */
-      coap_delete_bin_const(association->nonce);
-      association->nonce =
-          coap_new_bin_const(cose->nonce.s, cose->nonce.length);
-      if (association->nonce == NULL)
-        goto error;
-      coap_delete_bin_const(association->partial_iv);
-      association->partial_iv =
-          coap_new_bin_const(cose->partial_iv.s, cose->partial_iv.length);
-      if (association->partial_iv == NULL)
-        goto error;
-      coap_delete_bin_const(association->aad);
-      association->aad = coap_new_bin_const(cose->aad.s, cose->aad.length);
-      if (association->aad == NULL)
-        goto error;
-      association->recipient_ctx = rcp_ctx;
+      /*
+       * Refresh the association, but only once the request has been
+       * authenticated (the token is not protected)
+       */
+      refresh_association = association;
     } else if (!oscore_new_association(session,
                                        NULL,
                                        &pdu_token,
@@ -1391,6 +1381,25 @@ coap_oscore_decrypt_pdu(coap_session_t *session,
   }
 
   assert((size_t)pltxt_size < pdu->alloc_size + pdu->max_hdr_size);
+
+  if (refresh_association) {
+    /* Refresh the association now that the request is known to be genuine */
+    coap_delete_bin_const(refresh_association->nonce);
+    refresh_association->nonce =
+        coap_new_bin_const(cose->nonce.s, cose->nonce.length);
+    if (refresh_association->nonce == NULL)
+      goto error;
+    coap_delete_bin_const(refresh_association->partial_iv);
+    refresh_association->partial_iv =
+        coap_new_bin_const(cose->partial_iv.s, cose->partial_iv.length);
+    if (refresh_association->partial_iv == NULL)
+      goto error;
+    coap_delete_bin_const(refresh_association->aad);
+    refresh_association->aad = coap_new_bin_const(cose->aad.s, cose->aad.length);
+    if (refresh_association->aad == NULL)
+      goto error;
+    refresh_association->recipient_ctx = rcp_ctx;
+  }
 
   /* Appendix B.2 Trap */
   if (session->b_2_step == COAP_OSCORE_B_2_STEP_2) {
